@@ -12,7 +12,7 @@ from time import time
 
 from circuits.net.sockets import BUFSIZE
 
-from .constants import HTTP_STATUS_CODES, SERVER_VERSION
+from .constants import HTTP_STATUS_CODES, SERVER_PROTOCOL, SERVER_VERSION
 from .errors import httperror
 from .headers import Headers
 from .url import parse_url
@@ -293,7 +293,12 @@ class Response:
 
         self.cookie = self.request.cookie
 
-        self.protocol = 'HTTP/%d.%d' % self.request.protocol
+        # answer in a protocol version this server speaks: never echo an
+        # unsupported one (e.g. HTTP/2.0 or HTTP/1.7) in the status line
+        protocol = self.request.protocol
+        if protocol[0] != SERVER_PROTOCOL[0] or protocol > SERVER_PROTOCOL:
+            protocol = SERVER_PROTOCOL
+        self.protocol = 'HTTP/%d.%d' % protocol
 
     def __repr__(self):
         return '<Response %s %s (%d)>' % (
